@@ -120,10 +120,10 @@ def _check_on(S, case, first):
     nt = False
     refs = {"bfs": ref_bfs, "dfs_recursive": ref_dfs_pre, "dfs_iterative": ref_dfs_stack}
     for sname, sfn, tfn in (("bfs", B.bfs, B.bft), ("dfs_recursive", D.dfs_recursive, D.dft_recursive), ("dfs_iterative", D.dfs_iterative, D.dft_iterative)):
-        with trav.neighbor_budget(4 * n + 8):
+        with trav.neighbor_budget(4 * (n + 2) * (n + 2) + 32):
             order = tfn(S.uni, start)
         exp = next((x for x in order if matches(x)), None)
-        with trav.neighbor_budget(8 * n + 8):
+        with trav.neighbor_budget(8 * (n + 2) * (n + 2) + 32):
             try:
                 got = sfn(S.uni, start, an, sought)
             except Exception as e:  # noqa
